@@ -249,7 +249,30 @@ def network(draw, noisy=None, kinds=None):
                     "d": [0, 0, 0], "geoid": None, "defl": None})
         k = len(pts) - 1
         tgt = draw(st.integers(0, n - 1))
-        obs.append(mk("vector", k, tgt) if (gnss or draw(st.booleans())) else mk("distance", tgt, k))
+        if gnss:
+            obs.append(mk("vector", k, tgt))
+        else:
+            # the unused point takes every role once in a while: end of a vector / distance / zenith angle, station,
+            # left or right target of an angle
+            role = draw(st.sampled_from(["vector", "distance", "distance_from", "zenith", "angle_from", "angle_left", "angle_right"]))
+            if role == "vector":
+                obs.append(mk("vector", k, tgt))
+            elif role == "distance":
+                obs.append(mk("distance", tgt, k))
+            elif role == "distance_from":
+                obs.append(mk("distance", k, tgt))
+            elif role == "zenith":
+                obs.append(mk("zenith", tgt, k))
+            elif n >= 2:
+                t2 = other(tgt)
+                if role == "angle_from":
+                    obs.append(mk("angle", k, tgt, t2))
+                elif role == "angle_left":
+                    obs.append(mk("angle", tgt, k, t2))
+                else:
+                    obs.append(mk("angle", tgt, t2, k))
+            else:
+                obs.append(mk("distance", tgt, k))
 
     # points of angles are mostly given as XYZ (a labelled minority keeps B-L-H)
     if draw(st.integers(0, 3)) != 0:
